@@ -593,6 +593,36 @@ func c08Ring(t *rapid.T, ev *evProp) {
 			}
 		}
 	}
+	if len(scope) > 0 {
+		// ONE scope buffer, rewritten in place between calls (epoch-0001 -> epoch-0002): the signature
+		// made for the new content carries the tag x*H(new scope), not the old one, and the old
+		// signature does not verify through the rewritten buffer
+		// (the buffer first holds a scope nobody has used yet, so that whatever the library remembers
+		// about "the last scope" is remembered from THIS buffer)
+		sbuf := append(make([]byte, 0, len(scope)+4), scope...)
+		pos, x := uniformInt(t, 0, len(sbuf)-1, "scopebyte"), byte(1+rapid.IntRange(0, 254).Draw(t, "scopexor"))
+		sbuf[pos] ^= x
+		sigA := anon.Sign(suite, msg, ring, sbuf, mine, privs[mine])
+		tagA, errA := anon.Verify(suite, msg, ring, sbuf, sigA)
+		sbuf[pos] ^= x
+		if rapid.Bool().Draw(t, "scopethird") {
+			sbuf[(pos+1)%len(sbuf)] ^= 0x40
+		}
+		newScope := append([]byte(nil), sbuf...)
+		sigB := anon.Sign(suite, msg, ring, sbuf, mine, privs[mine])
+		tagB, errB := anon.Verify(suite, msg, ring, newScope, sigB)
+		wantB := mustMarshal(t, suite.Point().Mul(privs[mine], suite.Point().Pick(suite.XOF(newScope))))
+		switch {
+		case errA != nil:
+			violationOrKnown(t, ev, "C08/ring/"+name+"/scope-buffer", "honest linkable signature rejected: %v\n%s", errA, ctx)
+		case errB != nil || !bytes.Equal(tagB, wantB) || bytes.Equal(tagB, tagA):
+			violationOrKnown(t, ev, "C08/ring/"+name+"/scope-buffer", "after the scope buffer was rewritten in place (%x -> %x) the new signature verifies with err=%v and tag %x; expected x*H(new scope) = %x (old tag %x)\n%s", scope, newScope, errB, tagB, wantB, tagA, ctx)
+		default:
+			if _, err := anon.Verify(suite, msg, ring, sbuf, sigA); err == nil {
+				violationOrKnown(t, ev, "C08/ring/"+name+"/scope-buffer", "the signature made under scope %x verifies through the same buffer after it was rewritten to %x\n%s", scope, newScope, ctx)
+			}
+		}
+	}
 	mut := rapid.SampledFrom([]string{"msg", "replace-member", "permute-ring", "scope", "sigbitflip", "sigbitflip", "sigbitflip", "truncate", "link-same", "link-otherkey", "link-otherscope", "drop-member"}).Draw(t, "mut")
 	expectReject := true
 	var verr error
